@@ -61,21 +61,22 @@ type ContractDB struct {
 	Pures     map[string]*PureFn   // key pkg + "::" + name ; also plain name for global lookups
 	Lemmas    []*Lemma
 	Transp    map[string]bool // pkg::FuncKey forced transparent
-	Opaque    map[string]bool // pkg::FuncKey never inlined (havoc/uninterpreted)
+	Opaque    map[string]bool // pkg::FuncKey never inlined: deterministic, side-effect free, uninterpreted result
+	Havoc     map[string]bool // pkg::FuncKey never inlined: unknown effects (whole heap forgotten)
 	Files     []string
 	Ghosts    map[string]string // ghost map name -> value sort (int|bool)
 	ConstGlobals map[string]string
 }
 
 func newContractDB() *ContractDB {
-	return &ContractDB{Contracts: map[string]*Contract{}, Pures: map[string]*PureFn{}, Transp: map[string]bool{}, Opaque: map[string]bool{}, Ghosts: map[string]string{}, ConstGlobals: map[string]string{}}
+	return &ContractDB{Contracts: map[string]*Contract{}, Pures: map[string]*PureFn{}, Transp: map[string]bool{}, Opaque: map[string]bool{}, Havoc: map[string]bool{}, Ghosts: map[string]string{}, ConstGlobals: map[string]string{}}
 }
 
 var labelRe = regexp.MustCompile(`^\[([A-Za-z0-9_.:\-]+)\]\s*`)
 
 var clauseKeywords = map[string]bool{"func": true, "pure": true, "lemma": true, "props": true, "requires": true, "ensures": true,
 	"modifies": true, "loop": true, "option": true, "assumed": true, "package": true, "transparent": true, "opaque": true,
-	"hyp": true, "concl": true, "end": true, "at": true, "ghostmap": true, "constglobal": true}
+	"hyp": true, "concl": true, "end": true, "at": true, "ghostmap": true, "constglobal": true, "havoc": true}
 
 // parseContractText parses the //@ lines of one file. defaultPkg is the package path the file
 // belongs to (for /repo files) or "" (prelude files must use `package` lines).
@@ -137,9 +138,18 @@ func (db *ContractDB) parseContractText(file, text, defaultPkg string) error {
 			for _, f := range strings.Split(c.rest, ",") {
 				db.Transp[pkg+"::"+strings.TrimSpace(f)] = true
 			}
-		case "opaque":
+		case "opaque", "havoc":
 			for _, f := range strings.Split(c.rest, ",") {
-				db.Opaque[pkg+"::"+strings.TrimSpace(f)] = true
+				f = strings.TrimSpace(f)
+				k := pkg + "::" + f
+				if strings.Contains(f, "::") {
+					k = f
+				}
+				if c.kw == "opaque" {
+					db.Opaque[k] = true
+				} else {
+					db.Havoc[k] = true
+				}
 			}
 		case "pure":
 			// pure name(a T, b U) = expr
@@ -251,15 +261,19 @@ func (db *ContractDB) parseContractText(file, text, defaultPkg string) error {
 		case "at":
 			// at NAME K assert EXPR
 			f := strings.Fields(c.rest)
-			if cur == nil || len(f) < 4 || f[2] != "assert" {
-				return fmt.Errorf("%s:%d: bad at clause (at NAME K assert EXPR)", file, c.line)
+			if cur == nil || len(f) < 4 || !(f[2] == "assert" || (f[2] == "after" && f[3] == "assert")) {
+				return fmt.Errorf("%s:%d: bad at clause (at NAME K [after] assert EXPR)", file, c.line)
 			}
 			rest := strings.TrimSpace(c.rest[strings.Index(c.rest, " assert ")+8:])
 			cl, err := mkClause(rest, c.line)
 			if err != nil {
 				return err
 			}
-			cur.Ats[f[0]+"#"+f[1]] = append(cur.Ats[f[0]+"#"+f[1]], cl)
+			key := f[0] + "#" + f[1]
+			if f[2] == "after" {
+				key += "!after"
+			}
+			cur.Ats[key] = append(cur.Ats[key], cl)
 		case "ghostmap":
 			// ghostmap NAME int|bool
 			f := strings.Fields(c.rest)
